@@ -7,12 +7,15 @@
 (* the specification (known_findings.json); the trace specification only   *)
 (* reports which deviation set explains an observation.                    *)
 (***************************************************************************)
-EXTENDS X691
+EXTENDS X696
 
 DerDevs == <<"DevDerSetNotSorted", "DevDerSetOfNotSorted", "DevDerNamedBitsNotTrimmed", "DevTagOnTaggedChoiceRefExplicit", "DevDefaultNullEncoded">>
 
 PerDevs == <<"DevPerSemiConstrainedAsUnconstrained", "DevPerChoiceIndexTextualOrder", "DevPerStringAlignIfMaxGt1",
-             "DevPerUniversalStringSizeIgnored", "DevPerEmptyOutermost", "DevDefaultNullEncoded">>
+             "DevPerUniversalStringSizeIgnored", "DevPerEmptyOutermost", "DevDefaultNullEncoded", "DevPerNormallySmallLengthNoAlign">>
+
+OerDevs == <<"DevOerExtensibleIntConstraintVisible", "DevOerGroupsFlattened", "DevOerFixedSizeByCharCount",
+             "DevOerSetTextualOrder", "DevDefaultNullEncoded">>
 
 \* candidate deviation sets, smallest first: singletons, pairs, everything
 DevCandidates(devs) ==
